@@ -177,6 +177,66 @@ func runC09(r *core.Run) {
 			})
 		sub.Extra["constructs"] = len(cons)
 	}
+	// (1c) long closed prefixes: A = (unit sep)^n for EVERY n up to a bound, B = constructs whose rendering depends on
+	// blank-line bookkeeping (loose/tight lists) and others; thresholds inside the block parser are crossed at every phase
+	{
+		bsrc := []string{"- a\n\n- b", "- a\n- b", "1. a\n\n2. b", "- a\n\n  b\n- c", "> a\n\n> b", "a\n\nb", "- a\n  - b\n\n  - c\n- d", "`a` *b*", "- a\n\n\n- b", "* a\n\n  b\n\n* c"}
+		for _, cn := range []string{"core+unsafe", "gfm"} {
+			cfg := core.MustCfg(cn)
+			var bs [][2][]byte
+			{
+				cv := core.NewConv(cfg)
+				for _, c := range bsrc {
+					out, _, _ := cv.Convert([]byte(c))
+					bs = append(bs, [2][]byte{[]byte(c), append([]byte{}, out...)})
+				}
+			}
+			sub := r.Sub("replication/"+cn, "placeholder")
+			sub.Rule = fmt.Sprintf("A = (unit sep)^n for unit in %q, sep in {LF, LF LF}, every n = 1..%d (skipped when A ends in an open code/HTML block), B = each of %q: R(A ⏎⏎ '# h' ⏎⏎ B) == R(A) + heading + R(B) and R(B ⏎⏎ '# h' ⏎⏎ A) == R(B) + heading + R(A), under %s", replUnits, core.Pick(r, 150, 300), bsrc, cn)
+			maxN := core.Pick(r, 150, 300)
+			type job struct{ u, sep string }
+			var jobs []job
+			for _, u := range replUnits {
+				for _, sep := range []string{"\n", "\n\n"} {
+					jobs = append(jobs, job{u, sep})
+				}
+			}
+			complete := core.ForEachIndex(len(jobs), core.Workers(), func(w int) func(int) {
+				cv := core.NewConv(cfg)
+				var scratch, ra []byte
+				return func(i int) {
+					var a []byte
+					for n := 1; n <= maxN; n++ {
+						a = append(append(a, jobs[i].u...), jobs[i].sep...)
+						at := bytes.TrimRight(a, "\n")
+						doc, pan := cv.Parse(at)
+						if pan != nil || doc == nil || endsInOpenRawBlock(doc) {
+							continue
+						}
+						out, ok := mustConvert(sub, cv, at)
+						if !ok {
+							continue
+						}
+						ra = append(ra[:0], out...)
+						for _, b := range bs {
+							c09PairCase(sub, cv, at, ra, b[0], b[1], &scratch)
+							c09PairCase(sub, cv, b[0], b[1], at, ra, &scratch)
+							sub.Evals.Add(2)
+						}
+					}
+					sub.Distinct(core.Hash(a))
+				}
+			}, r.Expired)
+			if !complete {
+				sub.Incomplete("internal deadline reached")
+			}
+			sub.Bound = fmt.Sprintf("%d units × 2 separators × n=1..%d × %d B × 2 orders", len(replUnits), maxN, len(bs))
+			sub.States.Store(sub.Evals.Load())
+			sub.Transitions.Store(sub.Evals.Load())
+			sub.AddSample("A = (\"a\" LF LF)^123, B = \"- a\\n\\n- b\"")
+			sub.Done()
+		}
+	}
 	// (2) reference definitions are position independent
 	dtoks := []string{"a", " ", "\n", "[foo]", "[FOO][]", "[x][ foo ]", "![Foo]", "*", "> ", "- ", "#", "[b][Bar]", "`"}
 	defsets := []string{
